@@ -31,8 +31,8 @@ def parse_meta(path):
     meta['path'] = path
     return meta
 
-def sh(cmd, timeout, cwd=None, mem=True):
-    pre = 'ulimit -v %d; ' % MEM_KB if mem else ''
+def sh(cmd, timeout, cwd=None, mem=True, mem_kb=None):
+    pre = 'ulimit -v %d; ' % (mem_kb or MEM_KB) if mem else ''
     t0 = time.time()
     try:
         r = subprocess.run(['bash', '-c', pre + 'exec "$@"', 'x'] + cmd, capture_output=True, text=True,
@@ -123,6 +123,28 @@ def run_harness(meta, prop_id, keep=False):
             res['total_s'] = time.time() - t0
             return res
         cur = nv
+    if meta.get('unwind_fns') and not meta.get('plain'):
+        # loops WITHOUT contracts must be unwound before the contract instrumentation (DFCC tracks
+        # locals per static DECL; unwinding afterwards makes later iterations fail the frame checks)
+        rc, out, err, dt = sh(['goto-instrument', '--show-loops', '--json-ui', cur], 120)
+        names = []
+        try:
+            for it in json.loads(out):
+                for lp in it.get('loops', []):
+                    fn = lp.get('sourceLocation', {}).get('function', '')
+                    if fn in meta['unwind_fns']:
+                        names.append(lp.get('name'))
+        except Exception:
+            pass
+        if names:
+            u = os.path.join(wd, 'unw.gb')
+            rc, out, err, dt = sh(['goto-instrument', '--unwindset', ','.join('%s:%d' % (n, int(meta.get('unwind', 8))) for n in names),
+                                   '--unwinding-assertions', cur, u], 300)
+            if rc != 0:
+                res['notes'].append('goto-instrument --unwindset failed: ' + (out + err)[-800:])
+                res['total_s'] = time.time() - t0
+                return res
+            cur = u
     gi_cmd = None
     if (meta.get('enforce') or meta.get('replace') or meta.get('loop_contracts')) and not meta.get('plain'):
         b = os.path.join(wd, 'b.gb')
@@ -168,7 +190,7 @@ def run_harness(meta, prop_id, keep=False):
         else:
             cb_cmd += ['--unwind', str(meta['unwind']), '--unwinding-assertions']
     cb_cmd += [cur]
-    rc, out, err, dt = sh(cb_cmd, tmo)
+    rc, out, err, dt = sh(cb_cmd, tmo, mem_kb=(int(meta['mem_gb']) * 1024 * 1024 if meta.get('mem_gb') else None))
     res['solver_s'] = round(dt, 2)
     res['checker_cmd'] = ' '.join((gi_cmd or []) + ['&&'] + cb_cmd) if gi_cmd else ' '.join(cb_cmd)
     if rc == -9:
@@ -188,6 +210,12 @@ def run_harness(meta, prop_id, keep=False):
             results = item['result']
         if item.get('messageType') in ('ERROR', 'WARNING'):
             msgs.append(item.get('messageText', ''))
+    allmsgs = ' '.join(str(item.get('messageText', '')) for item in js if isinstance(item, dict))
+    if 'out of memory' in allmsgs.lower() or 'bad_alloc' in allmsgs.lower() or 'memory' in (err or '').lower():
+        res['status'] = 'error'
+        res['notes'].append('cbmc/SAT solver ran out of memory (ulimit -v %d kB): results discarded' % MEM_KB)
+        res['total_s'] = time.time() - t0
+        return res
     ignoring = [m for m in msgs if 'ignoring' in m]
     if ignoring:
         res['notes'].append('cbmc ignored constructs: ' + '; '.join(ignoring[:3]))
